@@ -32,7 +32,7 @@ def _work(job):
             case = eng.gen(common.rng_for(ename + (":" + shape["tag"] if shape else ""), idx, seed), tier, shape)
         obs = eng.run_impl(case)
         fails = eng.oracle(case, obs)
-        lines = eng.model_lines(case)
+        lines = eng.model_lines_obs(case, obs) if hasattr(eng, "model_lines_obs") else eng.model_lines(case)
         return {"idx": idx, "case": case, "obs": obs, "fails": fails, "lines": lines, "error": None}
     except BaseException as e:  # noqa: BLE001
         return {"idx": idx, "case": given, "obs": None, "fails": [], "lines": [],
